@@ -18,7 +18,8 @@ TL_DERIVE = ["tl_copy", "tl_copy_func", "tl_crop_loose", "tl_crop_strict", "tl_c
 TL_TO_ANN = ["to_annotation"]
 PURE_OPS = ["co_iter", "mul", "to_rttm", "to_lab", "eq", "ne", "chart", "argmax", "itertracks", "labels", "contains",
             "discretize", "tl_co_iter", "tl_covers", "tl_eq", "tl_to_uem", "tl_overlapping", "tl_str",
-            "absent_label", "absent_segment", "internal_views", "ann_all_reads", "tl_all_reads", "mutator_args"]
+            "absent_label", "absent_segment", "internal_views", "ann_all_reads", "tl_all_reads", "mutator_args",
+            "one_label_duration", "one_label_timeline", "one_label_support", "one_label_get_labels"]
 RULE = ("for every deriving operation of Annotation and Timeline (copy, crop x3, extrude x3, support, subset, "
         "rename_labels copy/generated, rename_tracks, relabel_tracks, update(copy=True), get_timeline, label_timeline, "
         "label_support, get_overlap, to_annotation, Timeline copy/crop/extrude/support/gaps/segmentation/union) in each "
@@ -53,7 +54,7 @@ def generate(rng, tier):
                                       if rng.random() < 0.5 else ["tl", gen.rand_timeline(rng, regime, maxn=3, span=12)],
                                       "labels": labels, "muts": muts})
         for op in PURE_OPS:
-            for cache in ("none", "full", "partial"):
+            for cache in ("none", "full", "partial", "dirty2"):
                 for _ in range(n * 2):
                     labels = LABELS[: rng.randrange(2, 5)]
                     cases.append({"k": "pure", "regime": regime, "op": op, "cache": cache,
@@ -99,6 +100,17 @@ def _prime(a, cache, labels):
         a.get_timeline()
         for l in a.labels():
             a.label_timeline(l)
+    elif cache == "dirty2":
+        # warm caches, then ONE edit that dirties two built labels at once (a track relabelled from one to the other)
+        a.labels()
+        a.get_timeline()
+        for l in a.labels():
+            a.label_timeline(l)
+        for s, t, l in list(a.itertracks(yield_label=True)):
+            others = [x for x in a.labels() if x != l]
+            if others:
+                a[s, t] = others[0]
+                break
     elif cache == "partial":
         a.labels()
         a.get_timeline()
@@ -232,7 +244,8 @@ def run(case):
         to = other.get_timeline()
         raw = _raw_snap(tb, a)
         before = [_snap(tb, a.copy()), _snap(tb, other), _snap(tb, t), _snap(tb, to)]
-        _prime(a, case["cache"], labels)
+        if case["cache"] != "dirty2":            # (dirty2 edits the content: applied once, above)
+            _prime(a, case["cache"], labels)
         if op == "co_iter": list(a.co_iter(other))
         elif op == "mul": a * other
         elif op == "to_rttm": a.to_rttm()
@@ -251,6 +264,15 @@ def run(case):
         elif op == "tl_to_uem": t.to_uem()
         elif op == "tl_overlapping": t.overlapping(tb.t(3))
         elif op == "tl_str": str(t); repr(t); len(t); t.duration()
+        elif op.startswith("one_label_"):
+            # the FIRST read after the last edit asks about one label only; every other label must still be answered
+            # from the current tracks afterwards
+            present = [l for _s, _t, l in a.itertracks(yield_label=True)]
+            for lab in (present[:1] if present else []) + [labels[0]]:
+                if op == "one_label_duration": a.label_duration(lab)
+                elif op == "one_label_timeline": a.label_timeline(lab)
+                elif op == "one_label_support": a.label_support(lab)
+                else: a.label_timeline(lab, copy=False)
         elif op == "mutator_args":
             # in-place operations that take another object: the ARGUMENT is only read - unchanged right after the
             # call and unaffected by later edits of the receiver (and conversely); both size relations
